@@ -21,6 +21,13 @@ pub fn opts(n: usize) -> Options {
 	}
 }
 
+pub fn commit_overlays(n: usize) -> RwLock<Vec<CommitOverlay>> {
+	let mut v = Vec::with_capacity(n);
+	let mut c = 0;
+	while c < n { v.push(CommitOverlay::new()); c += 1; }
+	RwLock::new(v)
+}
+
 pub fn wc<S: Default>() -> WaitCondvar<S> { WaitCondvar { cv: Condvar::new(), work: Mutex::new(S::default()) } }
 
 pub fn mk_db(o: Options, ncols: usize, bg_err: bool) -> DbInner {
@@ -252,7 +259,8 @@ fn clean_logs_db_case(nq: usize, race: bool, sync_data: bool) {
 	db.columns.push(crate::column::verif_kani::mini_plain_column(false));
 	if nq >= 1 { crate::log::verif_kani::log_push_cleanup(&db.log, 1, 11); }
 	if nq >= 2 { crate::log::verif_kani::log_push_cleanup(&db.log, 2, 12); }
-	unsafe { crate::log::verif_kani::RACE_ON = race; crate::log::verif_kani::RACE_DONE = false; }
+	if race { crate::log::verif_kani::log_push_cleanup(&db.log, 3, 30); }
+	unsafe { crate::log::verif_kani::RACE_ON = race; crate::log::verif_kani::NDL_CALLS = 0; }
 	crate::log::verif_kani::set_log_ptr(&db.log);
 	let r = db.clean_logs();
 	crate::log::verif_kani::clear_log_ptr();
@@ -275,10 +283,9 @@ fn clean_logs_db_case(nq: usize, race: bool, sync_data: bool) {
 	if r.is_ok() {
 		if sync_data { assert!(truncated == nq, "C12.O3 all logs that waited for cleanup are cleaned"); }
 		else { assert!(truncated == 0, "C12.O3 without sync_data up to KEEP_LOGS logs are kept"); }
-		let raced = race && sync_data && nq > 0;
-		assert!(crate::log::verif_kani::log_cleanup_has(&db.log, 3) == raced, "C12.O3 a log that became dirty during the flush waits for the next round");
+		assert!(crate::log::verif_kani::log_cleanup_has(&db.log, 3) == race, "C12.O3 a log that became dirty during the flush waits for the next round");
 	}
-	kani::cover!(truncated == nq && nq > 0);
+	kani::cover!(if sync_data { truncated == nq && nq > 0 } else { truncated == 0 && r.is_ok() });
 	std::mem::forget(r);
 	std::mem::forget(db);
 }
@@ -291,6 +298,7 @@ macro_rules! c12_o3b {
 			#[kani::stub(<std::fs::File as std::io::Seek>::seek, crate::log::verif_kani::stub_file_seek)]
 			#[kani::stub(std::fs::File::set_len, crate::log::verif_kani::stub_set_len)]
 			#[kani::stub(std::fs::File::sync_all, crate::log::verif_kani::stub_sync_all)]
+			#[kani::stub(crate::log::Log::num_dirty_logs, crate::log::verif_kani::stub_num_dirty_logs)]
 			#[kani::stub(<std::os::fd::OwnedFd as std::ops::Drop>::drop, crate::verif_common::fd_drop_noop)]
 			fn $name() { clean_logs_db_case($nq, $race, $sd) }
 		}
